@@ -34,14 +34,16 @@ type Ctx struct {
 	funcSet map[*ssa.Function]bool
 
 	// caches
-	effCache   map[*ssa.Function]Eff
-	callers    map[*ssa.Function][]ssa.CallInstruction
-	implsCache map[*types.Func][]*ssa.Function
-	domCache   map[*ssa.Function]*loopInfo
-	keyEval    *keyEvaluator
-	roles      *Roles
-	km         *keyModel
-	funcTables map[*ssa.Global][]*ssa.Function
+	effCache         map[*ssa.Function]Eff
+	callers          map[*ssa.Function][]ssa.CallInstruction
+	implsCache       map[*types.Func][]*ssa.Function
+	domCache         map[*ssa.Function]*loopInfo
+	keyEval          *keyEvaluator
+	roles            *Roles
+	km               *keyModel
+	funcTables       map[*ssa.Global][]*ssa.Function
+	satPanics        map[token.Pos]bool
+	satPanicsDecided bool
 
 	// statistics for evidence
 	NPackages int
